@@ -196,7 +196,7 @@ fn c15_bam_validate_implies_accessors_in_range() {
     std::mem::forget(v);
 }
 
-// @verif prop=C15,C05 id=O5.8/cigar tier=thorough unwind=14 timeout=2400 bound="ARBITRARY buffer of 0..=44 bytes: validate ok => RecordRef::cigar() (incl. the kSmN / CG-tag probe) does not panic" fns="validate,RecordRef::cigar,record::data::get_raw_cigar"
+// @verif prop=C15,C05 id=O5.8/cigar tier=off off_reason="does not fit: >2400 s (CG-tag probe through get_raw_cigar)" unwind=14 timeout=2400 bound="ARBITRARY buffer of 0..=44 bytes: validate ok => RecordRef::cigar() (incl. the kSmN / CG-tag probe) does not panic" fns="validate,RecordRef::cigar,record::data::get_raw_cigar"
 #[kani::proof]
 #[kani::unwind(14)]
 fn c15_bam_validate_implies_cigar_in_range() {
